@@ -1,6 +1,16 @@
-(* C45, used when none of the three findings is observed: the whole table is the declaration *)
-From Coq Require Import String List.
+(* C45, used when none of the findings is observed: the whole table is the declaration, under every hypothesis *)
+From Coq Require Import String List ZArith Bool Arith Sorted.
 From C45 Require Import C45Model C45Spec C45Proofs.
-Theorem C45_exported_metadata_is_the_declaration : forall g d, faithful g d (symbols repaired g d).
+Import ListNotations.
+Local Open Scope string_scope.
+Local Open Scope list_scope.
+Theorem C45_exported_metadata_is_the_declaration : forall g d, decl_wf d -> faithful g d (symbols repaired g d).
 Proof. exact faithful_repaired. Qed.
 Print Assumptions C45_exported_metadata_is_the_declaration.
+Theorem C45_exported_metadata_is_the_declaration_under_every_hypothesis : forall g d, decl_wf d -> forall h, faithful g (restrict h d) (symbols_at repaired g d h).
+Proof. exact faithful_at_hypotheses. Qed.
+Print Assumptions C45_exported_metadata_is_the_declaration_under_every_hypothesis.
+Theorem C45_accepted_declarations_are_exported_faithfully : forall g d, accepts repaired g d = true ->
+  faithful g d (symbols repaired g d) /\ forall h, faithful g (restrict h d) (symbols_at repaired g d h).
+Proof. exact accepts_faithful. Qed.
+Print Assumptions C45_accepted_declarations_are_exported_faithfully.
